@@ -290,4 +290,13 @@ pub fn possible_intersection<F>(""")]),
     M('t-point-on-a', ['C16'], [(SI, "            return LineIntersection::Point(mid_point(b1, t, vb));", "            return LineIntersection::Point(mid_point(a1, t, va));")], {'C16': 'I-algebra'}),
     B('midpoint-lerp-form', ['C16', 'C04', 'C08'], [(SI, "        x: p.x + s * d.x,\n        y: p.y + s * d.y,\n    }\n}", "        x: d.x * s + p.x,\n        y: d.y * s + p.y,\n    }\n}")]),
     B('cross-product-commuted', ['C16', 'C04', 'C10'], [(SI, "    a.x * b.y - a.y * b.x", "    b.y * a.x - b.x * a.y")]),
+    # ---- membership tests and splay exits (M-lookup)
+    M('find_key-accepts-not-greater', ['C17'], [(TR, "                if (self.comparator)(key, &root.key) == Ordering::Equal {\n                    Some(&root.key)", "                if (self.comparator)(key, &root.key) != Ordering::Greater {\n                    Some(&root.key)")], {'C17': 'M-lookup'}),
+    M('get_mut-no-splay', ['C17'], [(TR, "                splay(key, root, &self.comparator);\n                if (self.comparator)(key, &root.key) == Ordering::Equal {\n                    Some(&mut root.value)", "                if (self.comparator)(key, &root.key) == Ordering::Equal {\n                    Some(&mut root.value)")], {'C17': 'M-lookup'}),
+    M('remove-membership-inverted', ['C17'], [(TR, "                if (self.comparator)(key, &root.key) != Ordering::Equal {\n                    return None;", "                if (self.comparator)(key, &root.key) == Ordering::Less {\n                    return None;")], {'C17': 'M-lookup'}),
+    M('splay-stops-after-zigzig-mismatch', ['C17'], [(TR, "                    if comparator(key, &left.key) == Ordering::Less {", "                    if comparator(key, &left.key) == Ordering::Greater {\n                        break;\n                    }\n                    if comparator(key, &left.key) == Ordering::Less {")], {'C17': 'M-'}),
+    B('find_key-match-form', ['C17'], [(TR, "                if (self.comparator)(key, &root.key) == Ordering::Equal {\n                    Some(&root.key)\n                } else {\n                    None\n                }", "                match (self.comparator)(key, &root.key) {\n                    Ordering::Equal => Some(&root.key),\n                    _ => None,\n                }")]),
+    M('set-intoiter-next_back-calls-next', ['C17'], [(ST, "        self.inner.next_back().map(|(k, _)| k)", "        self.inner.next().map(|(k, _)| k)")], {'C17': 'M-mirror'}),
+    M('set-min-calls-max', ['C17'], [(ST, "        self.tree.min()\n", "        self.tree.max()\n")], {'C17': 'M-mirror'}),
+    M('tree-max-uses-min_node', ['C17'], [(TR, "        self.max_node().map(|node| &node.key)", "        self.min_node().map(|node| &node.key)")], {'C17': 'M-'}),
 ]
